@@ -28,7 +28,8 @@ prop("C01", "exploration",
      "core/vm and on artela-evm (5 tracer/join-point configurations). Non-trivial = the reference run executed >= 8 "
      "instructions and (entered a nested frame or executed a state-changing opcode); distinct = distinct scenario JSON.",
      [{"test": "TestC01", "quick": {"checks": 6000, "shards": 2, "timeout": 600},
-       "thorough": {"checks": 60000, "shards": 16, "timeout": 3000}}])
+       "thorough": {"checks": 60000, "shards": 16, "timeout": 3000}},
+      {"fuzz": "FuzzC01", "thorough": {"fuzztime": "180s", "timeout": 1800}}])
 
 prop("C02", "exploration",
      "cases = the C01 scenario space; both implementations run with a recording debug tracer and the streams "
@@ -38,7 +39,8 @@ prop("C02", "exploration",
      "comparison is repeated per limit. Non-trivial = run contains a dynamic-gas opcode AND a swept limit changed the "
      "outcome w.r.t. the ample-gas run; distinct = distinct scenario JSON (incl. sweep selectors).",
      [{"test": "TestC02", "quick": {"checks": 1200, "shards": 4, "timeout": 600},
-       "thorough": {"checks": 12000, "shards": 16, "timeout": 3000}}])
+       "thorough": {"checks": 12000, "shards": 16, "timeout": 3000}},
+      {"fuzz": "FuzzC02", "thorough": {"fuzztime": "120s", "timeout": 1800}}])
 
 prop("C18", "exploration",
      "cases = C01 scenario space x tracer configuration (struct logger memory/stack/storage/return-data/limit; callTracer "
@@ -49,7 +51,8 @@ prop("C18", "exploration",
      "lookups, start/end and enter/exit must be balanced and LIFO and step depths must match the open frames. "
      "Non-trivial = a nested frame and a fault/revert occurred.",
      [{"test": "TestC18", "quick": {"checks": 2500, "shards": 4, "timeout": 600},
-       "thorough": {"checks": 25000, "shards": 16, "timeout": 3000}}])
+       "thorough": {"checks": 25000, "shards": 16, "timeout": 3000}},
+      {"fuzz": "FuzzC18", "thorough": {"fuzztime": "120s", "timeout": 1800}}])
 
 prop("C15", "exploration",
      "cases = Cancun scenarios from two generators: (1) scripted contracts over TSTORE/TLOAD/MCOPY with calls of all "
